@@ -164,6 +164,9 @@ type vfRun struct {
 	violSeen map[string]int
 	notes    []string
 	maxSamples int
+	// SigMap (optional) rewrites violation signatures, e.g. to report a shared oracle's findings under the
+	// property of the run that armed it
+	SigMap func(string) string
 }
 
 func vfNewRun(prop, engine string) *vfRun {
@@ -236,6 +239,9 @@ func (r *vfRun) Seen(set, member string) {
 // known_findings.json is matched against; detail is free text; c is whatever
 // replays/explains the case. At most 3 full records are kept per signature.
 func (r *vfRun) Violation(sig, detail string, c any) {
+	if r.SigMap != nil {
+		sig = r.SigMap(sig)
+	}
 	r.mu.Lock()
 	r.violSeen[sig]++
 	n := r.violSeen[sig]
